@@ -198,6 +198,7 @@ class C11(F.PropCheck):
         cases += self.redeliver_cases(rng, max(24, n // 12))
         cases += self.startup_cases(rng, max(24, n // 12))
         cases += self.cfg_cases(rng, max(24, n // 12))
+        cases += self.matrix_cases()
         if tier != 'search': cases += self.sweep_cases(tier) + self.spike_cases(tier)
         return cases
 
@@ -234,6 +235,28 @@ class C11(F.PropCheck):
                 else:
                     evs += [('IN', [1], b''), ('ADV', [d + 125 * MS], b''), ('TRIG', [mask], b''), ('ADV', [g1], b''), ('IN', [0], b''), ('ADV', [900 * MS], b'')]
             cases.append(F.Case('rd%d' % i, evs, ['config-redelivered', 'type%d' % typ, kind]))
+        return cases
+
+    def matrix_cases(self):
+        """single clicks over the configuration matrix: input type x trigger-on-press x pull-up x relay wired x
+        action-trigger mode off / on with x1 enabled / on with x1 disabled (roller-shutter relays are outside this driver)"""
+        k = K(); cases = []
+        for typ in (2, 4, 8):
+            if typ == 2: cap = k['CAP_HOLD'] + sum(k['CAP_PRESS_x%d' % j] for j in range(1, 6)); x1 = k['CAP_PRESS_x1']; x2 = k['CAP_PRESS_x2']
+            elif typ == 4: cap = 3 + sum(k['CAP_TOGGLE_x%d' % j] for j in range(1, 6)); x1 = k['CAP_TOGGLE_x1']; x2 = k['CAP_TOGGLE_x2']
+            else: cap = 3; x1 = 3; x2 = 1
+            for top in (0, k['FLAG_TRIGGER_ON_PRESS']):
+                for pu in (0, 1):
+                    for relay in (1, 0):
+                        for mode, mask in (('plain', None), ('at-x1', x1 | x2), ('at-nox1', x2), ('at-hold', k['CAP_HOLD'] if typ == 2 else 2)):
+                            lvl0 = pu   # idle level
+                            evs = [('CFG', [1, typ, top | pu, relay, 1, cap if mask is not None else 0, lvl0], b''),
+                                   ('ADV', [250 * MS], b''), ('REG', [], b''), ('ADV', [400 * MS], b'')]
+                            if mask is not None: evs.append(('TRIG', [mask], b''))
+                            evs.append(('ADV', [500 * MS], b''))
+                            for w in (180 * MS, 260 * MS):
+                                evs += [('IN', [lvl0 ^ 1], b''), ('ADV', [w], b''), ('IN', [lvl0], b''), ('ADV', [800 * MS], b'')]
+                            cases.append(F.Case('mx_%d_%d_%d_%d_%s' % (typ, top, pu, relay, mode), evs, ['matrix', 'type%d' % typ, mode]))
         return cases
 
     def cfg_cases(self, rng, n):
@@ -583,6 +606,9 @@ class C11(F.PropCheck):
                 v.append('T: %s at %d us (enabled %#x, highest multiplicity %d): triggers %s, expected %s' % (what, t0, a, M, got, exp)); break
             if loc != exploc:
                 v.append('T: %s at %d us: %d local relay actions, expected %d' % (what, t0, loc, exploc)); break
+            redges = sum(1 for (kd, i, a2) in seq if kd == 'GPIO' and t0 <= i[0] <= w1)
+            if redges != exploc:       # the local action of a single click toggles the wired relay exactly once, nothing else moves it
+                v.append('T: %s at %d us: %d relay edges, expected %d' % (what, t0, redges, exploc)); break
         # the frames on the wire are the calls made while registered, in order
         if regd and not v:
             allt = [(i[0], i[2]) for (kd, i, a) in seq if kd == 'TRIG']
